@@ -496,6 +496,24 @@ func runC12(w *fw.Worker) {
 			w.Violation(i, "flag-result-differs:"+pk.name+":"+c11Classify(spec, leaves, layer, d), "reference vs flag source at "+d, witness())
 			return
 		}
+		if i%3 == 0 {
+			// the same source asked again (one Set handed to a second Config): the same flags, the same answer
+			againV, againErr := src.Value(context.Background(), dials.NewType(ptrType))
+			w.Count("sources_asked_a_second_time", 1)
+			if againErr != nil {
+				w.Violation(i, "value-error-on-the-second-call:"+pk.name, againErr.Error(), witness())
+				return
+			}
+			res2, cerr2 := dials.VerifCompose(reflect.New(spec.Type()).Interface(), []reflect.Value{againV})
+			if cerr2 != nil {
+				w.Violation(i, "compose-error-on-flag-value:"+pk.name+":second-call", cerr2.Error(), witness())
+				return
+			}
+			if d := gen.Diff(want, reflect.ValueOf(res2).Elem()); d != "" {
+				w.Violation(i, "flag-result-differs-on-the-second-call:"+pk.name, "reference vs the source's second answer at "+d, witness())
+				return
+			}
+		}
 		w.Count("flags_given_and_compared", int64(len(layer.Vals)))
 		w.Count("leaves_expected_unset", int64(len(leaves)-len(layer.Vals)))
 		w.Count("repeated_flag_accumulations", int64(repeats))
